@@ -28,7 +28,7 @@ def shards(tier):
 def gates(c, tier):
     out = []
     for k in ("mode:drain", "mode:pending", "refused:client", "refused:server", "refused-with-pending-bytes", "second-final-response-refused",
-              "refused-in:BINDING", "refused-in:CLOSED", "refused-in:OPENED", "refused-in:BEFORE_OPEN", "accepted-server-response", "failing-send"):
+              "refused-in:BINDING", "refused-in:CLOSED", "refused-in:OPENED", "refused-in:BEFORE_OPEN", "accepted-server-response", "failing-send", "many-open-requests"):
         if c.get(k, 0) == 0:
             out.append(f"never observed {k}")
     for m in ("bind_response", "extended_response", "entry", "reference", "done"):
@@ -117,7 +117,75 @@ def _account(acc, pair, mode):
                 acc.count("accepted-server-response")
 
 
+def many_requests(seed, n_ops, order):
+    """A server with n_ops requests open at once (ids not consecutive, not monotonic), answered in the given order; every
+    request then gets a second final response (must be refused, no bytes); finally the unanswered ones stay open."""
+    import random
+
+    from vf.ref import rfc4511
+
+    r = random.Random(seed)
+    ids = r.sample(range(1, 4 * n_ops + 10), n_ops)
+    if n_ops >= 3:
+        ids[0], ids[1] = 2**31 - 1, 2**31 + 5
+    kinds = {}
+    steps = []
+    for mid in ids:
+        if r.random() < 0.5:
+            steps.append(("receive", rfc4511.encode(("SearchRequest", mid, ("dc=x", 2, 0, 0, 0, False, ("present", "cn"), ()), ()))))
+            kinds[mid] = "search"
+        else:
+            steps.append(("receive", rfc4511.encode(("ExtendedRequest", mid, ("1.2.3", None), ()))))
+            kinds[mid] = "extended"
+    answer = list(ids)
+    if order == "newest-first":
+        answer.reverse()
+    elif order == "random":
+        r.shuffle(answer)
+    elif order == "sorted":
+        answer.sort()
+    keep_open = set(answer[-2:]) if n_ops > 4 else set()
+    for j, mid in enumerate(answer):
+        if mid in keep_open:
+            continue
+        if kinds[mid] == "search":
+            if j % 3 == 0:
+                steps.append(("entry", mid, "cn=e", (), None))
+            steps.append(("done", mid, 0, None, None, None))
+        else:
+            steps.append(("extended_response", mid, None, None, 0, None, None, None))
+    for mid in answer[:: max(1, n_ops // 16)]:
+        if mid not in keep_open:
+            steps.append(("done" if kinds[mid] == "search" else "extended_response", mid, *((0, None, None, None) if kinds[mid] == "search" else (None, None, 0, None, None, None))))
+    for mid in keep_open:  # still open: answering them works
+        steps.append(("done", mid, 0, None, None, None) if kinds[mid] == "search" else ("extended_response", mid, None, None, 0, None, None, None))
+    return steps
+
+
+def run_many(steps):
+    from vf.mon.driver import Driver
+
+    drv = Driver("server", "drain")
+    for a in steps:
+        vio = drv.step(tuple(a))
+        if vio:
+            return vio, drv
+    return [(k + ":server", w) for k, w in decode_out_stream(drv.out_stream, drv.expected_stream)], drv
+
+
 def run_shard(ctx: Ctx, acc: Acc):
+    combos = [(n_ops, order) for n_ops in (2, 33, 64, 257, 1000) for order in ("oldest-first", "newest-first", "random", "sorted")]
+    for ci, (n_ops, order) in enumerate(combos):
+        if ci % ctx.nshards != ctx.shard:
+            continue
+        acc.case()
+        acc.count("many-open-requests")
+        acc.nontrivial("many", n_ops, order)
+        vio, drv = run_many(many_requests(ctx.seed * 137 + ci, n_ops, order))
+        acc.count("trace-events", len(drv.trace))
+        acc.count("second-final-response-refused", sum(1 for ev in drv.trace if ev.get("outcome") not in ("ok", None) and ev.get("op") in ("done", "extended_response")))
+        for key, what in vio:
+            acc.violation(key, what + f" [{n_ops} requests open at once, answered {order}]", {"many": [ctx.seed * 137 + ci, n_ops, order]})
     n = ctx.scale(40_000, 1_000_000)
     for i in range(n):
         r = ctx.rng(i)
@@ -174,6 +242,8 @@ def run_shard(ctx: Ctx, acc: Acc):
 
 
 def replay(w):
+    if w.get("many"):
+        return run_many(many_requests(*w["many"]))[0]
     steps = [(s, to_tuple(a)) for s, a in w["steps"]]
     vio, _ = run_concrete(steps, w.get("mode", "drain"))
     return vio
